@@ -58,6 +58,21 @@ theorem flags_count (p : Bool) (e : Ex) :
     simp only [Src.const_parent_flags, countFreeConsts, List.count_append, ihl, ihr, hb]
     cases o.isAddSub' <;> simp <;> omega
 
+theorem get_terms_visit_eq (e : Ex) : Src.get_terms_visit e = sumChildren e := by
+  induction e with
+  | const => simp [Src.get_terms_visit, Src.get_terms_visit_fn, sumChildren]
+  | var => simp [Src.get_terms_visit, Src.get_terms_visit_fn, sumChildren]
+  | un t o c ih => simp [Src.get_terms_visit, Src.get_terms_visit_fn, sumChildren, ih]
+  | bin t o l r ihl ihr =>
+    simp only [Src.get_terms_visit, Src.get_terms_visit_fn, sumChildren, ihl, ihr]
+    cases o.isAddSub' <;> cases l.isAddSub <;> cases r.isAddSub <;> simp
+
+/-- the translated `get_terms` (asked of a root) is the model's -/
+theorem Src_get_terms (e : Ex) : Src.get_terms e = getTerms e := by
+  unfold Src.get_terms getTerms
+  simp only [get_terms_visit_eq]
+  cases h : ((if e.isOp .mul then [e] else []) ++ sumChildren e) <;> simp
+
 theorem loop1_nil (ts : List (Option TermKey)) :
     (Src.has_like_terms_loop1 [] ts).isNone = hasDup (ts.filterMap id) := by
   rw [loop1_spec]
@@ -68,6 +83,7 @@ theorem loop1_nil (ts : List (Option TermKey)) :
 /-- the translated `has_like_terms` is the model's, for every expression -/
 theorem Src_has_like_terms (e : Ex) : Src.has_like_terms e = hasLikeTerms e := by
   unfold Src.has_like_terms hasLikeTerms
+  rw [Src_get_terms]
   have h1 := loop1_nil ((getTerms e).map getTermKey)
   have hfm : ((getTerms e).map getTermKey).filterMap id = (getTerms e).filterMap getTermKey := by
     simp [List.filterMap_map]
